@@ -964,6 +964,11 @@ func quote(s string) string {
 // emitted as define-fun. Facts attached to reachable terms and axioms whose
 // triggers occur are added as assertions.
 func (c *Ctx) Query(asserts []*Term, getModelFor []*Term) string {
+	return c.QueryOpt(asserts, getModelFor, false)
+}
+
+// QueryOpt with noQuant omits quantified side facts and axioms (a weakening).
+func (c *Ctx) QueryOpt(asserts []*Term, getModelFor []*Term, noQuant bool) string {
 	var order []*Term
 	seen := map[*Term]bool{}
 	consts := map[string]*Term{}
@@ -971,6 +976,8 @@ func (c *Ctx) Query(asserts []*Term, getModelFor []*Term) string {
 	sorts := map[string]bool{}
 	var facts []*Term
 	factSeen := map[*Term]bool{}
+	var qfacts []*Term // quantified facts to be instantiated by hand (noQuant mode)
+	qfactSeen := map[*Term]bool{}
 	var noteSort func(s *Sort)
 	noteSort = func(s *Sort) {
 		switch s.Kind {
@@ -1007,6 +1014,13 @@ func (c *Ctx) Query(asserts []*Term, getModelFor []*Term) string {
 			visitFun(t.Name)
 		}
 		for _, f := range t.Facts {
+			if noQuant && hasQuant(f, map[*Term]bool{}) {
+				if !qfactSeen[f] {
+					qfactSeen[f] = true
+					qfacts = append(qfacts, f)
+				}
+				continue
+			}
 			if !factSeen[f] {
 				factSeen[f] = true
 				facts = append(facts, f)
@@ -1034,10 +1048,48 @@ func (c *Ctx) Query(asserts []*Term, getModelFor []*Term) string {
 	for _, a := range asserts {
 		visit(a)
 	}
+	// noQuant: one-variable facts "forall k. P" with pattern select(A, k) are
+	// instantiated at every index at which A is read (E-matching by hand)
+	if noQuant {
+		done := map[[2]*Term]bool{}
+		for round := 0; round < 4; round++ {
+			added := false
+			snapshot := append([]*Term(nil), order...)
+			for _, f := range append([]*Term(nil), qfacts...) {
+				if f.Op != "forall" || len(f.Bound) != 1 || len(f.Pats) != 1 || len(f.Pats[0]) != 1 {
+					continue
+				}
+				pat := f.Pats[0][0]
+				if pat.Op != "select" || pat.Args[1] != f.Bound[0] || pat.Args[0].open {
+					continue
+				}
+				arr := pat.Args[0]
+				for _, t := range snapshot {
+					if t.Op == "select" && t.Args[0] == arr && !t.Args[1].open {
+						k := [2]*Term{f, t.Args[1]}
+						if done[k] {
+							continue
+						}
+						done[k] = true
+						inst := c.Subst(f.Args[0], map[*Term]*Term{f.Bound[0]: t.Args[1]})
+						if !factSeen[inst] {
+							factSeen[inst] = true
+							facts = append(facts, inst)
+							visit(inst)
+							added = true
+						}
+					}
+				}
+			}
+			if !added {
+				break
+			}
+		}
+	}
 	// axioms to fixpoint
 	var axs []*Axiom
 	axSeen := map[*Axiom]bool{}
-	for changed := true; changed; {
+	for changed := !noQuant; changed; {
 		changed = false
 		for _, ax := range c.Axioms {
 			if axSeen[ax] {
@@ -1158,6 +1210,22 @@ func (c *Ctx) Query(asserts []*Term, getModelFor []*Term) string {
 		sb.WriteString("))\n")
 	}
 	return sb.String()
+}
+
+func hasQuant(t *Term, seen map[*Term]bool) bool {
+	if seen[t] {
+		return false
+	}
+	seen[t] = true
+	if t.Op == "forall" || t.Op == "exists" {
+		return true
+	}
+	for _, a := range t.Args {
+		if hasQuant(a, seen) {
+			return true
+		}
+	}
+	return false
 }
 
 func markAll(t *Term, m map[*Term]bool) {
